@@ -741,3 +741,48 @@ def c09j(ctx):
             ctx.check(got == [want], 'CacheConfiguration.%s:filename[%s]' % (m, sample),
                       'filename %r is placed %s' % (sample, 'below cache_dir()' if want == 'cache-dir' else 'relative to the configuration file'), fn,
                       fail='filename %r resolves to %s: the database is created outside the directory configured for the cache' % (sample, got))
+
+
+@rule('C09.k', floor=8)
+def c09k(ctx):
+    """every cache reads and writes under its own directory: the directory is computed from the configuration each time, nothing is
+    written back into it.  The option blocks of the configuration are shared objects (a YAML anchor / merge key hands the same mapping
+    to several caches): a default stored with `conf['cache'].setdefault('directory', <dir of this cache>)` is the explicit directory
+    of the next cache that shares the block.  No method of CacheConfiguration stores into self.conf or calls a mutating method on it"""
+    cls = ctx.repo.cls('mapproxy/config/loader.py:CacheConfiguration')
+    MUT = ('setdefault', 'update', 'pop', 'popitem', 'clear', '__setitem__', '__delitem__')
+    n = 0
+    for fn in sorted(ctx.repo.fns_in('mapproxy/config/loader.py:CacheConfiguration.'), key=lambda f: f.qn):
+        if fn.qn.count('.') != 2 or fn.name == '__init__':          # (methods, not nested functions)
+            continue
+        # the methods that work out where a cache keeps its files and locks
+        if not (re.match(r'_\w+_cache$', fn.name) or fn.name in ('cache_dir', 'lock_dir', '_tile_cache', 'caches')):
+            continue
+        defs = Defs(fn.node)
+
+        def roots_at_conf(e, depth=3):
+            while isinstance(e, (ast.Attribute, ast.Subscript, ast.Call)):
+                if isinstance(e, ast.Attribute) and unparse(e) == 'self.conf':
+                    return True
+                if isinstance(e, ast.Call):
+                    # conf.get('cache', {}) hands out the shared mapping itself
+                    if isinstance(e.func, ast.Attribute) and e.func.attr == 'get':
+                        e = e.func.value
+                        continue
+                    return False
+                e = e.value
+            if isinstance(e, ast.Name) and depth > 0 and e.id not in ('self',):
+                return any(sel is None and roots_at_conf(v, depth - 1) for v, sel in defs.of(e.id))
+            return False
+        bad = []
+        for x in fn.walk():
+            if isinstance(x, ast.Subscript) and isinstance(x.ctx, (ast.Store, ast.Del)) and roots_at_conf(x.value):
+                bad.append(unparse(x))
+            elif isinstance(x, ast.Call) and isinstance(x.func, ast.Attribute) and x.func.attr in MUT and roots_at_conf(x.func.value):
+                bad.append(unparse(x)[:60])
+        n += 1
+        ctx.check(not bad, '%s:configuration-not-written' % fn.short, 'the method only reads self.conf', fn,
+                  fail='%s writes into the (shared) configuration mapping: %s -- a cache that shares the option block inherits the value '
+                       'computed for this cache' % (fn.short, '; '.join(bad)[:160]))
+    if n < 8:
+        raise Undecided('only %d location methods of CacheConfiguration found' % n)
